@@ -111,8 +111,7 @@ class C19(Check):
     def execute(self, case, env):
         out = Outcome()
         env.state["k"] += 1
-        work = os.path.join(env.scratch, "c19-%d" % env.state["k"])
-        os.makedirs(work)
+        work = env.tmpdir("c19-")  # unique: a replacement sandbox child must not collide with a killed one
         try:
             k = case["k"]
             out.label("kind:" + k)
